@@ -54,14 +54,16 @@ def string_filter(_filter: FilterT) -> FilterT:
 
     @wraps(_filter)
     def wrapper(val: object, *args: Any, **kwargs: Any) -> Any:
-        if val is None:
-            val = ""
-        elif not isinstance(val, str):
-            val = str(val)
-
         try:
+            if val is None:
+                val = ""
+            elif not isinstance(val, str):
+                val = str(val)
+
             return _filter(val, *args, **kwargs)
-        except TypeError as err:
+        except (TypeError, ValueError) as err:
+            # A ValueError here is, for example, an int that is too big to be
+            # converted to a string.
             raise FilterArgumentError(err, token=None) from err
 
     return wrapper
@@ -79,7 +81,7 @@ def array_filter(_filter: FilterT) -> FilterT:
 
         try:
             return _filter(val, *args, **kwargs)
-        except TypeError as err:
+        except (TypeError, ValueError) as err:
             raise FilterArgumentError(err, token=None) from err
 
     return wrapper
@@ -105,7 +107,7 @@ def sequence_filter(_filter: FilterT) -> FilterT:
             # This type error came from an internal `_getitem` call, not a
             # call to the filter callable.
             return None
-        except TypeError as err:
+        except (TypeError, ValueError) as err:
             raise FilterArgumentError(err, token=None) from err
 
     return wrapper
@@ -118,7 +120,7 @@ def liquid_filter(_filter: FilterT) -> FilterT:
     def wrapper(val: object, *args: Any, **kwargs: Any) -> Any:
         try:
             return _filter(val, *args, **kwargs)
-        except TypeError as err:
+        except (TypeError, ValueError) as err:
             raise FilterArgumentError(err, token=None) from err
 
     return wrapper
